@@ -12,7 +12,7 @@ EXTENDS JsRenamer, TraceIO
 VARIABLE l
 dvars == <<l, units, pc, newname, aux, fin, flag, stack>>
 
-Unit(u) == [par |-> u.par, kind |-> u.kind, ps |-> u.ps, ls |-> ToSet(u.ls), vs |-> ToSet(u.vs), us |-> ToSet(u.us), w |-> u.w]
+Unit(u) == [par |-> u.par, kind |-> u.kind, ps |-> u.ps, ls |-> ToSet(u.ls), vs |-> ToSet(u.vs), us |-> ToSet(u.us), w |-> u.w, fl |-> u.fl]
 UnitsOf(e) == [i \in DOMAIN e.units |-> Unit(e.units[i])]
 
 \* all finished renamings of the model (one per choice of tie orders)
